@@ -649,3 +649,49 @@ func EnumSingleDefects(ver int, v spec.Vec, level spec.Level, f func(input strin
 		}
 	}
 }
+
+// SmallVocabulary is a reduced token vocabulary for the double-edit neighbourhood: one
+// legal token per metric plus a representative of every defect class.
+func SmallVocabulary(ver int) []string {
+	tab := tabOf(ver)
+	var out []string
+	for _, m := range tab {
+		out = append(out, m.Name+":"+m.Codes[0], m.Name+":"+m.Codes[len(m.Codes)-1])
+	}
+	out = append(out, "", "ZZ:N", "av:N", "AV:n", "AV:X", "AV", "AV:N:L", ":N", "AV:", "CVSS:3.1", "CVSS:3.0", "CVSS:2.0", " ")
+	return out
+}
+
+// Neighbourhood2 calls f with every pair of single-token edits (replace or insert at two
+// positions i < j) over the small vocabulary.
+func Neighbourhood2(v spec.Vec, vocab []string, f func(s string)) {
+	segs := segsOf(v)
+	join := func(x []string) string { return strings.Join(x, "/") }
+	for i := 0; i <= len(segs); i++ {
+		for _, a := range vocab {
+			for _, ia := range []bool{false, true} { // replace / insert at i
+				if !ia && i == len(segs) {
+					continue
+				}
+				var first []string
+				if ia {
+					first = append(append(append([]string(nil), segs[:i]...), a), segs[i:]...)
+				} else {
+					first = append([]string(nil), segs...)
+					first[i] = a
+				}
+				for j := i + 1; j <= len(first); j++ {
+					for _, b := range vocab {
+						if j < len(first) {
+							r := append([]string(nil), first...)
+							r[j] = b
+							f(join(r))
+						}
+						r := append(append(append([]string(nil), first[:j]...), b), first[j:]...)
+						f(join(r))
+					}
+				}
+			}
+		}
+	}
+}
